@@ -11,7 +11,9 @@ CONSTANTS ScenLen
 VARIABLES hist, fin
 svars == <<vars, hist, fin>>
 
-SInit == Init /\ fin = FALSE /\ hist = <<[ev |-> "Reset", mgr |-> mgr, ours |-> ours, spe |-> SPE]>>
+\* (sub: the submitter strategy main.go selects - no part of the model, a sibling the attestations pass through)
+SInit == /\ Init /\ fin = FALSE
+         /\ hist \in {<<[ev |-> "Reset", mgr |-> mgr, ours |-> ours, spe |-> SPE, sub |-> x]>> : x \in {"immediate", "multinode"}}
 
 H(e) == hist' = Append(hist, e)
 
